@@ -292,28 +292,31 @@ def forked(fn, timeout: float):
     """Run fn() in a forked child with a wall-clock watchdog (for components
     the simulator does not control and that may block while holding the GIL).
     Returns ("ok", value) | ("exc", repr) | ("hang", None) | ("died", code)."""
-    r, w = os.pipe()
+    # (result through a file, never a pipe: a descendant hung in native code
+    # could keep a pipe open for ever)
+    res_path = f"/dev/shm/verif-fork-{os.getpid()}-{time.time_ns()}.pkl"
     rstate = random.getstate()
     pid = os.fork()
     if pid == 0:
         code = 0
         try:
+            from simlib.runner import die_with_parent
+            die_with_parent()
             # CPython re-seeds `random` from the OS in a forked child
             # (os.register_at_fork); restore the run's seeded state
             random.setstate(rstate)
-            os.close(r)
             signal.setitimer(signal.ITIMER_REAL, 0)
             try:
                 val = ("ok", fn())
             except BaseException as e:  # pylint: disable=broad-except
                 val = ("exc", f"{type(e).__name__}: {str(e)[:300]}")
-            with os.fdopen(w, "wb") as f:
+            with fslayer.real_open(res_path + ".tmp", "wb") as f:
                 pickle.dump(val, f)
+            os.rename(res_path + ".tmp", res_path)
         except BaseException:  # pylint: disable=broad-except
             code = 3
         finally:
             os._exit(code)
-    os.close(w)
     deadline = time.time() + timeout
     status = None
     while time.time() < deadline:
@@ -325,12 +328,15 @@ def forked(fn, timeout: float):
     if status is None:
         os.kill(pid, signal.SIGKILL)
         os.waitpid(pid, 0)
-        os.close(r)
+        for p_ in (res_path, res_path + ".tmp"):
+            if os.path.exists(p_):
+                os.unlink(p_)
         return ("hang", None)
-    with os.fdopen(r, "rb") as f:
-        data = f.read()
-    if not data:
+    if not os.path.exists(res_path):
         return ("died", status)
+    with fslayer.real_open(res_path, "rb") as f:
+        data = f.read()
+    os.unlink(res_path)
     return pickle.loads(data)
 
 
